@@ -31,6 +31,15 @@ pub fn exec(op: &str, args: &[&str]) -> String {
             xs.sort();
             xs.iter().map(show).collect::<Vec<_>>().join(";")
         }
+        "hbl" => {
+            // the bit-length shortcut itself (hook): a = 2^N - 1, b = 2^j, scale difference k
+            let nbits: usize = args[0].parse().unwrap();
+            let j: usize = args[1].parse().unwrap();
+            let k: u64 = args[2].parse().unwrap();
+            let a = (BigUint::from(1u8) << nbits) - 1u8;
+            let bb = BigUint::from(1u8) << j;
+            format!("{}", b(bigdecimal::verif_hooks::highest_bit_lessthan_scaled(&a, &bb, k)))
+        }
         _ => panic!("C02: unknown op {}", op),
     }
 }
@@ -43,6 +52,26 @@ pub fn generate(rng: &mut Rng, tier: &str, shard: usize, nshards: usize, out: &m
     let mut emit = |line: String, n: &mut usize| { *n += 1; if *n % nshards == shard { out(line); } };
     let pair = |x: &BigDecimal, y: &BigDecimal| format!("C02\tcmp\t{}\t{}", show(x), show(y));
 
+    // 0. the bit-length shortcut at its boundary: a = 2^N - 1 against 2^j * 10^k with N = floor(k log2 10) + j + delta.
+    //    First the scale differences where the f64 product LOG2_10 * k rounds up to an integer above k log2 10
+    //    (defect F16: 178_898_934 and its multiples), then every k up to 400 and random k up to 10^7.
+    for (nb, j, k) in [(594_289_395u64, 0u64, 178_898_934u64), (594_289_396, 1, 178_898_934), (594_289_394, 0, 178_898_934),
+                       (1_578_339_557, 0, 475_127_550), (1_578_339_556, 0, 475_127_550)] {
+        if k > 200_000_000 && !thorough { continue; }
+        emit(format!("C02\thbl\t{}\t{}\t{}", nb, j, k), &mut n);
+    }
+    let nk = if thorough { 20_000 } else { 1_500 };
+    for i in 0..nk {
+        let kmax = if rng.chance(1, 4) { 10_000_000 } else { 20_000 };
+        let k = if i < 400 { i as u64 + 1 } else { 1 + rng.below(kmax) };
+        let fl = ((k as f64) * 3.321928094887362) as u64;
+        for j in [0u64, 1, 37] {
+            for d in [-2i64, -1, 0, 1, 2] {
+                let nb = (fl + j) as i64 + d;
+                if nb >= 1 { emit(format!("C02\thbl\t{}\t{}\t{}", nb, j, k), &mut n); }
+            }
+        }
+    }
     // 1. limbs at the multiplication / carry overflow boundaries floor(2^64/10^k) ± 1, every k < 20, every limb position
     let reps = if thorough { 40 } else { 6 };
     for k in 1..20u32 {
